@@ -113,8 +113,10 @@ PROPS.update({
              "a command must run iff it never succeeded, its definition hash changed (each single-attribute edit kind), an input/"
              "discovered/output state differs from what it recorded, or a producer of an input ran. Non-trivial: a build that both ran "
              "and skipped commands, or a null build."),
-    "C10": b("same generator with injected command failures (exit status, fatal signal, failure after writing one output, missing "
-             "source input); no transitive consumer may run, the build must report failure, the command must be retried, and after "
+    "C10": b("same generator with command failures - injected (exit status, fatal signal, failure after writing one output) and the tool's "
+             "own (missing source input, a directory where an output must be written, a tool that stops at a missing undeclared header, a "
+             "file where a mkdir command must create its directory) - in builds that run to completion, builds cancelled on the first "
+             "failure by the delegate, and builds through the command-line driver; no transitive consumer may run, the build must report failure, the command must be retried, and after "
              "repair the build converges (C08 oracle). Non-trivial: at least one build with a failing command."),
     "C12": b("a source tree (depth <= 4, up to ~12 entries) consumed through a directory-tree or directory-structure node, with and without "
              "exclusion patterns; tree edits at any depth (add, remove, rename, retype file<->directory, content edit, mtime-only touch, "
